@@ -124,9 +124,9 @@ Check(r, idx) ==
         \* a Get that returned a value and does not find the key afterwards
         notCached == {e \in posts : e.op = "Get" /\ e.err = "miss" /\ ~removedBefore(e)}
         \* F24: the key held an EXPIRED, not yet removed entry when the race started (sc.dead = 1) and the only other activity is maintenance
-        \* ("sweep" = CleanUp, not a write).  Removing the dead node changes nothing a caller can see, so the load that was started because the
+        \* ("sweep" = CleanUp, "computecancel" = a computation that cancels itself and thereby removes the dead node it found: not writes).  Removing the dead node changes nothing a caller can see, so the load that was started because the
         \* entry had expired is not disturbed: the value it returned is in the cache, unless a LOADED value (>= 1000) was reported removed.
-        deadQuiet == r.sc.dead = 1 /\ (\A w \in wcalls : w.op = "sweep") /\ r.sc.inloader = <<>> /\ ~\E x \in exits : x.err \in {"nf", "nfw"}
+        deadQuiet == r.sc.dead = 1 /\ (\A w \in wcalls : w.op \in {"sweep", "computecancel"}) /\ r.sc.inloader = <<>> /\ ~\E x \in exits : x.err \in {"nf", "nfw"}
         droppedBySweep == {e \in posts : e.op = "Get" /\ e.err = "miss" /\ ~\E a \in aevs : a.seq < e.seq /\ a.v >= 1000}
         \* C11 "swaps atomically or not at all" (C09): Reload(key, old) produces the successor of the value it was HANDED.  If the key was
         \* rewritten after that value was read - also before the executor got round to the task, when no in-flight record exists yet that the
